@@ -12,6 +12,18 @@ def hook_commits():
         return []
 
 CHECKS = {
+ "C08": dict(
+    level="exploration",
+    technique="differential testing of the real binary against itself: N fresh processes (fresh map-iteration orders) x environment and working-directory variants on hand-built multi-defect documents and rapid-generated configurations; metamorphic key permutations of every YAML mapping",
+    text="Byte-identity of stdout and of the generated file across repeated executions and neutral perturbations, and of the generated file across key permutations; inputs are built so that every order-sensitive map holds at least two entries and every defect class is present at least twice.",
+    note="Probabilistic for map-order dependence: a 2-entry site escapes N runs with probability 2^-(N-1) (3% quick, 2e-6 thorough); stdout is not claimed under key permutations.",
+    ref="DESIGN.md §4 C08"),
+ "C09": dict(
+    level="exploration",
+    technique="metamorphic + model-based: rapid splitter that distributes a configuration over files according to the documented merge rules, drawn file-naming schemes where glob order and lexical order differ; byte-identity with the single-file form, with the reference merge, and under re-bracketing; hand-built overriding pair per attribute",
+    text="Split invariance, agreement with an independent reference merge, associativity and the empty-file identity are checked on the bytes of the generated file for thousands of (configuration, split, naming) triples; every attribute's override rule is enumerated.",
+    note="Trusts the harness's splitter (guarded: the split must merge back to the whole under the reference merge, else the case is discarded and counted) and the reference merge.",
+    ref="DESIGN.md §4 C09"),
  "C11": dict(
     level="exploration",
     technique="bounded-exhaustive strings per grammar position against hand-written recursive recognisers (differential with the repository's regular expressions), rapid edit-mutated valid forms, hand-enumerated node-kind/shape documents, rapid k-subsets of simultaneous violations",
